@@ -314,7 +314,7 @@ func (e *Env) processFailures(s *Spec, agg *Agg, known *Known) (*Outcome, error)
 			}
 			if !match(f, rr) {
 				unreproduced = append(unreproduced, fmt.Sprintf("%s (unit %d)", f.Key(), f.Run))
-				keep := filepath.Join(e.Root, "replays", fmt.Sprintf("%s-nonreproducing-%d.json", s.ID, f.Run))
+				keep := filepath.Join(e.OutRoot(), "replays", fmt.Sprintf("%s-nonreproducing-%d.json", s.ID, f.Run))
 				mkdir(keep)
 				writeJSON(keep, doc)
 				continue
@@ -352,7 +352,7 @@ func (e *Env) processFailures(s *Spec, agg *Agg, known *Known) (*Outcome, error)
 				continue
 			}
 			h := sha256.Sum256([]byte(fmt.Sprintf("%s|%v|%d|%s", f.Key(), doc.Range, e.Seed, e.Tier)))
-			path := filepath.Join(e.Root, "replays", fmt.Sprintf("%s-%s.json", s.ID, hex.EncodeToString(h[:])[:10]))
+			path := filepath.Join(e.OutRoot(), "replays", fmt.Sprintf("%s-%s.json", s.ID, hex.EncodeToString(h[:])[:10]))
 			mkdir(path)
 			if err := writeJSON(path, doc); err != nil {
 				return nil, troublef("%v", err)
@@ -371,7 +371,7 @@ func (e *Env) processFailures(s *Spec, agg *Agg, known *Known) (*Outcome, error)
 			for _, g := range rr.Fails {
 				got = append(got, g.Key())
 			}
-			keep := filepath.Join(e.Root, "replays", fmt.Sprintf("%s-nonreproducing-%d.json", s.ID, f.Run))
+			keep := filepath.Join(e.OutRoot(), "replays", fmt.Sprintf("%s-nonreproducing-%d.json", s.ID, f.Run))
 			mkdir(keep)
 			writeJSON(keep, doc)
 			return nil, troublef("failure %q of unit %d did not reproduce in a fresh process (got %v, exit %d, trouble %q): determinism failure of the machinery; case kept at %s\n%s",
@@ -382,9 +382,12 @@ func (e *Env) processFailures(s *Spec, agg *Agg, known *Known) (*Outcome, error)
 			out.Lines = append(out.Lines, fmt.Sprintf("KNOWN-FINDING: property=%s %s [%s at %s]", s.ID, what, f.Class, f.Site))
 			continue
 		}
-		min := e.minimise(s, f, doc, match, env)
+		min := doc
+		if os.Getenv("VERIF_NO_MINIMISE") == "" {
+			min = e.minimise(s, f, doc, match, env)
+		}
 		h := sha256.Sum256(min.Case)
-		path := filepath.Join(e.Root, "replays", fmt.Sprintf("%s-%s.json", s.ID, hex.EncodeToString(h[:])[:10]))
+		path := filepath.Join(e.OutRoot(), "replays", fmt.Sprintf("%s-%s.json", s.ID, hex.EncodeToString(h[:])[:10]))
 		mkdir(path)
 		if err := writeJSON(path, min); err != nil {
 			return nil, troublef("%v", err)
@@ -400,7 +403,7 @@ func (e *Env) processFailures(s *Spec, agg *Agg, known *Known) (*Outcome, error)
 	if len(unreproduced) > 0 {
 		if out.Violations == 0 {
 			// a detector report that three fresh processes could not repeat is neither believed nor dropped
-			return nil, troublef("race reports that did not reproduce in fresh processes: %v (cases kept under %s)", unreproduced, filepath.Join(e.Root, "replays"))
+			return nil, troublef("race reports that did not reproduce in fresh processes: %v (cases kept under %s)", unreproduced, filepath.Join(e.OutRoot(), "replays"))
 		}
 		out.Lines = append(out.Lines, fmt.Sprintf("  note: further race reports did not reproduce in fresh processes: %v", unreproduced))
 	}
@@ -461,7 +464,7 @@ func (e *Env) writeEvidence(s *Spec, agg *Agg, cov map[string]interface{}, out *
 		"wall_s":      wall,
 		"violations":  out.Violations,
 	}
-	path := filepath.Join(e.Root, "evidence", s.ID+".json")
+	path := filepath.Join(e.OutRoot(), "evidence", s.ID+".json")
 	mkdir(path)
 	if nt < 2 || agg.Evals < 1 || len(samples) < 1 {
 		return troublef("evidence would be empty (evaluations=%d distinct=%d samples=%d)", agg.Evals, nt, len(samples))
